@@ -323,6 +323,7 @@ func (fr *Frame) dispatchCall(instr ssa.Instruction, cc *ssa.CallCommon, pos tok
 		return fr.havocCall(cc, args, false, pos)
 	}
 	fr.R.Trusted["A-FRAME: library function writes only library-owned state and what its arguments reach: "+full] = true
+	fr.bumpTop()
 	fr.havocExternal(cc, args)
 	return fr.havocResult(cc, pos)
 }
@@ -343,7 +344,6 @@ func (fr *Frame) bumpTop() {
 
 // havocResult returns unconstrained results of the call's signature.
 func (fr *Frame) havocResult(cc *ssa.CallCommon, pos token.Pos) Val {
-	fr.bumpTop()
 	sig := cc.Signature()
 	n := sig.Results().Len()
 	switch n {
@@ -360,6 +360,7 @@ func (fr *Frame) havocResult(cc *ssa.CallCommon, pos token.Pos) Val {
 }
 
 func (fr *Frame) havocCall(cc *ssa.CallCommon, args []Val, heap bool, pos token.Pos) Val {
+	fr.bumpTop()
 	if heap {
 		fr.R.Heap.HavocAll(fr.st)
 	}
@@ -649,6 +650,8 @@ func (fr *Frame) applyContractVars(c *Contract, fn *ssa.Function, cc *ssa.CallCo
 		fr.R.addObl("requires@"+shortName(c.Name), rq.Label, goal, rq.Src, &rq, pos)
 	}
 	pre := fr.st.Clone()
+	// objects the callee allocates lie above the caller's watermark
+	fr.bumpTop()
 	// effects
 	switch {
 	case c.ModAll:
@@ -677,7 +680,6 @@ func (fr *Frame) applyContractVars(c *Contract, fn *ssa.Function, cc *ssa.CallCo
 		}
 	}
 	sig := cc.Signature()
-	fr.bumpTop()
 	var results []EV
 	var resVals []Val
 	for i := 0; i < sig.Results().Len(); i++ {
@@ -801,6 +803,15 @@ func (fr *Frame) havocTarget(ctx *EvalCtx, e Expr) {
 			return
 		case "chanState":
 			h.Havoc(fr.st, chanClosedComp)
+			return
+		case "allElems":
+			ty, err := fr.R.Eng.ResolveType(typeExprString(e.Args[0]), ctx.pkgPath)
+			if err != nil {
+				ctx.fail("%v", err)
+			}
+			fr.R.Heap.NoteType(elemsComp(ty), ty)
+			fr.R.Heap.register(elemsComp(ty), ArraySort(SInt, ArraySort(SInt, fr.R.TM.SortOf(ty))))
+			h.Havoc(fr.st, elemsComp(ty))
 			return
 		case "reach":
 			// everything reachable (by type) from the argument; for an interface-typed argument the static type
